@@ -3,8 +3,9 @@
 * font PDFs: a Type0 / Identity-H font with an embedded (minimal, hand-built) TrueType program whose
   ToUnicode CMap maps some codes to U+0000.  pdf_extractor's wrapper around pypdf's build_char_map
   (_patch_font_digit_map) recognises such glyphs as digits by their bounding boxes.  The text of the
-  page is  <label><one char per null-mapped code>, so the projection "which null-mapped glyph ids
-  were resolved to a digit" can be read off the extracted text.  Results of these documents depend
+  page is  <label><one char per glyph id 1..4>: the glyph ids of the document's set are null-mapped, the
+  others are mapped to a letter, so the projections "which null-mapped glyph ids were resolved to a digit"
+  and "which properly mapped glyphs were overwritten" can be read off the extracted text.  Results of these documents depend
   on the patch being in place (concurrency) and on _FONT_CACHE (history).
 * failing PDFs: garbage (fails before the patch section) and a page whose font resource is not a
   font so that page.extract_text raises inside the patch section (both attempts).
@@ -51,14 +52,19 @@ def make_ttf(dims) -> bytes:
     return bytes(out) + body
 
 
-def make_font_pdf(font: bytes, codes, label: str, broken_tounicode: bool = False) -> bytes:
+def make_font_pdf(font: bytes, codes, label: str, broken_tounicode: bool = False, letters=None) -> bytes:
+    """codes: glyph ids mapped to U+0000 by the ToUnicode CMap; letters: {glyph id: real character} of glyphs
+    the document maps properly.  Page text = label, then one character per glyph id of codes+letters in
+    ascending order."""
+    letters = dict(letters or {})
+    used = sorted(set(codes) | set(letters))
     tu = ("/CIDInit /ProcSet findresource begin 12 dict begin begincmap /CMapName /X def /CMapType 2 def\n"
           "1 begincodespacerange <0000> <FFFF> endcodespacerange\n"
-          f"{len(codes) + len(label)} beginbfchar\n"
-          + "".join(f"<{c:04X}> <0000>\n" for c in codes)
+          f"{len(used) + len(label)} beginbfchar\n"
+          + "".join(f"<{c:04X}> <{ord(letters[c]) if c in letters else 0:04X}>\n" for c in used)
           + "".join(f"<{0x100 + i:04X}> <{ord(ch):04X}>\n" for i, ch in enumerate(label))
           + "endbfchar endcmap CMapName currentdict /CMap defineresource pop end end").encode()
-    text = "".join(f"{0x100 + i:04X}" for i in range(len(label))) + "".join(f"{c:04X}" for c in codes)
+    text = "".join(f"{0x100 + i:04X}" for i in range(len(label))) + "".join(f"{c:04X}" for c in used)
     content = f"BT /F1 12 Tf 72 700 Td <{text}> Tj ET".encode()
     objs = []
 
@@ -91,17 +97,29 @@ def make_font_pdf(font: bytes, codes, label: str, broken_tounicode: bool = False
     return bytes(out)
 
 
+DOC_GLYPHS = [1, 2, 3, 4]          # every generated font document shows all of these glyphs
+LETTERS = {1: "W", 2: "X", 3: "Y", 4: "Z"}
+
+
 def font_doc(font_name: str, codes) -> bytes:
-    return make_font_pdf(make_ttf(FONTS[font_name]), list(codes), "Sum")
+    """glyph ids in `codes` are null-mapped (digits to be recovered from the outlines); the other glyph ids
+    of DOC_GLYPHS are mapped to their real letter, so that a wrongly reused, too large feature set is visible
+    (the library would overwrite the letter with a digit)"""
+    codes = list(codes)
+    return make_font_pdf(make_ttf(FONTS[font_name]), codes, "Sum",
+                         letters={c: LETTERS[c] for c in DOC_GLYPHS if c not in codes})
 
 
-def resolved_glyphs(text: str, codes) -> list:
-    """projection: which of the null-mapped glyph ids came out as a digit (label 'Sum' precedes them)"""
+def glyph_projection(text: str, codes):
+    """projection -> (gl, cl): gl = null-mapped glyph ids that came out as a digit;
+    cl = properly mapped glyph ids that did NOT come out as their letter (clobbered)"""
     i = text.find("Sum")
-    tail = text[i + 3: i + 3 + len(codes)] if i >= 0 else ""
-    if len(tail) != len(codes):
-        return [-1]
-    return sorted(c for c, ch in zip(codes, tail) if ch.isdigit())
+    tail = text[i + 3: i + 3 + len(DOC_GLYPHS)] if i >= 0 else ""
+    if len(tail) != len(DOC_GLYPHS):
+        return [-1], [-1]
+    gl = sorted(c for c, ch in zip(DOC_GLYPHS, tail) if c in codes and ch.isdigit())
+    cl = sorted(c for c, ch in zip(DOC_GLYPHS, tail) if c not in codes and ch != LETTERS[c])
+    return gl, cl
 
 
 def failing_pdfs() -> dict:
